@@ -6,7 +6,7 @@ import io
 import z3
 
 from lib.runner import Unit
-from symlite.values import AbsStr, NullLogger, fresh_bool, fresh_int, lift, sym_int, sym_len
+from symlite.values import AbsStr, NullLogger, choose, fresh_bool, fresh_int, lift, sym_int, sym_len
 
 import sqlfluff.core.linter.linter as lmod
 import sqlfluff.core.linter.runner as rmod
@@ -269,3 +269,94 @@ def units(tier, seed):
              bounds={"files skipped": "0..2", "large_file_skip_fail": "both"}, make=make_exit(), replay="concrete",
              witnesses_required=["fail_on_skip", "skip_tolerated"], sharded=False, timeout_s=120),
     ]
+
+
+# ---------------------------------------------------------------- the two limits through the real lint_paths (real files)
+def limit_route(kind, over, fix, processes):
+    """Returns (problems, counted_as_skipped). kind = 'byte' | 'char'."""
+    import logging
+    import os
+    import shutil
+    import tempfile
+    from sqlfluff.core import FluffConfig, Linter
+    d = tempfile.mkdtemp(prefix="c34r_")
+    try:
+        body = "SELECT  a,b FROM t\n" * (20 if over else 1)      # 380 / 19 bytes; LT01 violations either way
+        paths = []
+        for n in ("f.sql", "g.sql"):
+            p = os.path.join(d, n)
+            open(p, "w").write(body if n == "f.sql" else "SELECT 1\n")
+            paths.append(p)
+        ov = {"dialect": "ansi", "rules": "LT01", "large_file_skip_byte_limit": 100 if kind == "byte" else 0}
+        if kind == "char":
+            ov["large_file_skip_char_limit"] = 100
+        logging.disable(logging.CRITICAL)
+        try:
+            lin = Linter(config=FluffConfig(overrides=ov))
+            lin.allow_process_parallelism = False   # threads: the harness itself runs inside pool workers
+            res = lin.lint_paths(tuple(paths), fix=fix, apply_fixes=fix, processes=processes)
+        finally:
+            logging.disable(logging.NOTSET)
+        problems = []
+        vs = [v for ld in res.paths for f in ld.files if f.path.endswith("f.sql") for v in f.get_violations()]
+        now = open(paths[0]).read()
+        if over:
+            if vs:
+                problems.append(f"oversized file was linted: {sorted({v.rule_code() for v in vs})}")
+            if now != body:
+                problems.append("oversized file was rewritten")
+        else:
+            if not vs and not fix:
+                problems.append("file under the limit reports nothing")
+            if fix and now == body:
+                problems.append("file under the limit was not fixed")
+        return problems, res.files_skipped
+    finally:
+        shutil.rmtree(d, ignore_errors=True)
+
+
+def make_limit_routes():
+    def factory(excluded=frozenset()):
+        def harness(c):
+            kind = choose(c, "limit_kind", ["byte", "char"])
+            over = bool(fresh_bool(c, "file_over_the_limit"))
+            fix = bool(fresh_bool(c, "fix_mode"))
+            procs = int(fresh_int(c, "processes", 1, 2))
+            problems, skipped = limit_route(kind, over, fix, procs)
+            if over and skipped != 1 and not (kind == "char" and "F34" in excluded):
+                problems.append(f"files_skipped = {skipped}, expected 1")
+            if not over and skipped != 0:
+                problems.append(f"files_skipped = {skipped}, expected 0")
+            if over:
+                c.witness("oversized")
+            if kind == "char":
+                c.witness("char_limit")
+            return not problems
+        return harness
+    return factory
+
+
+def replay_limit_routes(cex, strict=True):
+    kind = ["byte", "char"][int(cex.get("limit_kind", 0))]
+    over, fix, procs = bool(cex.get("file_over_the_limit")), bool(cex.get("fix_mode")), int(cex.get("processes", 1))
+    problems, skipped = limit_route(kind, over, fix, procs)
+    if over and skipped != 1:
+        problems.append(f"files_skipped = {skipped}, expected 1")
+    return (f"{kind} limit 100, file {'over' if over else 'under'} it, {'fix' if fix else 'lint'}, processes={procs}: " + "; ".join(problems)) if problems else None
+
+
+def known_f34(entry):
+    return replay_limit_routes(entry["replay"])
+
+
+KNOWN["F34"] = known_f34
+_units_kernels_c34 = units
+
+
+def units(tier, seed):  # noqa: F811
+    return _units_kernels_c34(tier, seed) + [Unit(
+        name="c34.limit_routes", functions=["sqlfluff.core.linter.linter.Linter.lint_paths / render_string (SQLFluffSkipFile from the templater)",
+                                            "sqlfluff.core.templaters.base.large_file_check", "BaseRunner.iter_rendered"],
+        bounds={"limit": "byte / char (100)", "file": "over / under", "mode": "lint / fix", "processes": "1..2", "files in the run": 2},
+        make=make_limit_routes(), replay=replay_limit_routes, stubs=["none: real files, real lint_paths"],
+        outside=["stdin / API string routes"], witnesses_required=["oversized", "char_limit"], sharded=True, timeout_s=600)]
